@@ -1,0 +1,64 @@
+//! Read-only projections of engine state for the verification harness
+//! (compiled only with `--cfg walrus_verif`; see /verif/DESIGN.md section 5).
+
+use super::Walrus;
+use super::allocator::FileStateTracker;
+use crate::wal::block::Block;
+use crate::wal::verif::{BlockView, FileView, TopicView};
+
+fn view(b: &Block) -> BlockView {
+    BlockView {
+        id: b.id,
+        offset: b.offset,
+        limit: b.limit,
+        used: b.used,
+        file: b.file_path.clone(),
+    }
+}
+
+impl Walrus {
+    #[doc(hidden)]
+    pub fn __verif_topic_view(&self, topic: &str) -> TopicView {
+        let mut out = TopicView::default();
+        if let Some(info_arc) = self
+            .reader
+            .data
+            .read()
+            .ok()
+            .and_then(|m| m.get(topic).cloned())
+        {
+            if let Ok(info) = info_arc.read() {
+                out.known_to_reader = true;
+                out.chain = info.chain.iter().map(view).collect();
+                out.cur_block_idx = info.cur_block_idx as u64;
+                out.cur_block_offset = info.cur_block_offset;
+                out.tail_block_id = info.tail_block_id;
+                out.tail_offset = info.tail_offset;
+                out.reads_since_persist = info.reads_since_persist;
+                out.hydrated = info.hydrated_from_index;
+            }
+        }
+        if let Some(w) = self.writers.read().ok().and_then(|m| m.get(topic).cloned()) {
+            if let Ok((b, off)) = w.snapshot_block() {
+                out.writer = Some((view(&b), off));
+            }
+        }
+        if let Ok(idx) = self.read_offset_index.read() {
+            out.index = idx
+                .get(topic)
+                .map(|p| (p.cur_block_idx, p.cur_block_offset));
+        }
+        out.count = self.get_topic_entry_count(topic);
+        out
+    }
+
+    #[doc(hidden)]
+    pub fn __verif_root(&self) -> std::path::PathBuf {
+        self.paths.root().to_path_buf()
+    }
+
+    #[doc(hidden)]
+    pub fn __verif_file_views() -> Vec<FileView> {
+        FileStateTracker::verif_snapshot_all()
+    }
+}
